@@ -152,7 +152,7 @@ def run(c: Check):
         "upstream, filter storage, query log, billing, rule statistics, DNSDB, GeoIP and the profile database are "
         "recording fakes; rate limiter fake never limits; cache effect observed through the cache's Prometheus metrics",
         "excluded inputs: EDNS options (malformed ECS is answered FORMERR before the access check, see DESIGN C10), "
-        "zoned link-local addresses, root name, CHAOS class, special names of the initial middleware",
+        "zoned link-local addresses, CHAOS class, special names of the initial middleware",
         "TLC, SANY, CommunityModules Json",
     ]
 
